@@ -116,7 +116,10 @@ class FormulaParser(Parser):
         elif p[2] == '^':
             p[0] = utils.power(to_number(p[1]), to_number(p[3]))
         elif p[2] == '%':
-            p[0] = to_number(p[1]) / 100  # correctly rounded, unlike n * 0.01
+            try:
+                p[0] = to_number(p[1]) / 100  # correctly rounded, unlike n * 0.01
+            except OverflowError:
+                p[0] = error.NUM  # 1 followed by 311 zeros, percent: beyond the largest number
         if isinstance(p[0], string_types):
             # a decimal literal beyond the largest number (1 followed by 400 zeros, then .5)
             p[0] = error.NUM
